@@ -13,6 +13,7 @@ Model of the semi-supervised classifiers around the vote kernel (property C13):
 Scalars are `Rat`.  Matrices that the code holds densely are `List (List Rat)` (rows).
 -/
 import SkNet.Model.Basic
+import SkNet.Model.Vote
 
 namespace SkNet.Classify
 
@@ -121,6 +122,16 @@ def adjacencyValues (c : Csr Rat) (forceBip : Bool) (v r cc : Seeds) : Except Py
   else
     let vals ← getValues c.nRow v
     pure ⟨c, vals, false⟩
+
+/-! ### probabilities of `Propagation` -/
+namespace Propagation
+
+/-- row `i` of `normalize(adjacency.dot(get_membership(labels)))` over the label columns `0 … nLabels-1` -/
+def probsRow (c : Csr Rat) (labels : List Int) (i : Nat) : List Rat :=
+  normalizeRow (tab (Vote.nLabels labels) fun l =>
+    rsum (((c.row i).filter fun e => labels.getD e.1 (-1) == (l : Int)).map (·.2)))
+
+end Propagation
 
 /-! ### reachability from the seeds (sign of `get_distances(adjacency, source=seeds)`; the frontier loop
     itself is the subject of C10) -/
